@@ -45,6 +45,11 @@ def _worker(conn, harness_name, cfg, tier, repo, seed):
     try:
         os.environ["PYMOTO_VERIF"] = "1"
         seen = _trace_functions(repo)
+        try:
+            from harness.refs_merge import prime_inspect_cache
+            prime_inspect_cache()      # speed only: pyMOTO's inspect.stack() in every Signal/Module constructor
+        except Exception:
+            pass
         h = importlib.import_module("harness." + harness_name)
         res = h.run_item(cfg, tier)
         res["functions"] = sorted(seen)
